@@ -141,6 +141,32 @@ class SymBool:
     __rand__ = __and__
     __ror__ = __or__
 
+    # arithmetic on conditions, e.g. the idiom  (a > b) - (a < b): decide, then compute with ints
+    def __int__(self):
+        return int(bool(self))
+
+    def __index__(self):
+        return int(bool(self))
+
+    def __sub__(self, o):
+        return int(bool(self)) - int(bool(o))
+
+    def __rsub__(self, o):
+        return int(bool(o)) - int(bool(self))
+
+    def __add__(self, o):
+        return int(bool(self)) + int(bool(o))
+
+    __radd__ = __add__
+
+    def __eq__(self, o):
+        if isinstance(o, (bool, int)):
+            return bool(self) == bool(o)
+        return self is o
+
+    def __hash__(self):
+        return id(self)
+
 
 def as_symbool(c):
     if isinstance(c, SymBool):
